@@ -417,15 +417,25 @@ func genProj(seed uint64, n int, tier string, emit func(string, []string, any)) 
 	for i := 0; i < n; i++ {
 		cr := r.Fork()
 		np := 0
+		validOnly := os.Getenv("VH_VALID_ONLY") != ""
 		switch cr.Intn(4) {
 		case 1, 2:
 			np = 1
 		case 3:
 			np = 2
 		}
+		if validOnly {
+			np = 0
+		}
 		p, applied := genProject(cr, np)
+		if validOnly {
+			p.Config.Enforce = false
+		}
 		if allEngines {
 			p.Engines = []string{"gin", "echo", "mux", "chi", "fiber"}
+		}
+		if os.Getenv("VH_DETERMINISM") != "" {
+			p.Determinism = 5
 		}
 		if os.Getenv("VH_REPEAT") != "" {
 			p.Repeat = 1 + cr.Intn(3)
